@@ -141,7 +141,7 @@ kind: ServiceEntry
 metadata: {name: se-dns, namespace: ns1}
 spec:
   hosts: [dns.ns1.example.com]
-  ports: [{number: 80, name: http, protocol: HTTP}]
+  ports: [{number: 8080, name: http, protocol: HTTP}]
   resolution: DNS
   endpoints:
   - {address: a.example.org, locality: region1/zone1/sub1}
@@ -190,6 +190,37 @@ spec:
     route: [{destination: {host: static.ns1.example.com, subset: v2}}]
   - route: [{destination: {host: static.ns1.example.com, subset: v1}}]
 ---
+# routes selected by the CALLER's namespace (route "80"): generation reads the proxy namespace, which is
+# not part of the RDS key - such a route must not be cacheable
+apiVersion: networking.istio.io/v1
+kind: VirtualService
+metadata: {name: vs-tenant, namespace: ns1}
+spec:
+  hosts: [static2.ns1.example.com]
+  http:
+  - name: from-ns3
+    match: [{sourceNamespace: ns3}]
+    route: [{destination: {host: static2.ns1.example.com}, headers: {request: {set: {x-tenant: ns3}}}}]
+  - name: from-ns1-mesh
+    match: [{sourceNamespace: ns1, gateways: [mesh]}]
+    route: [{destination: {host: static2.ns1.example.com}, headers: {request: {set: {x-tenant: ns1}}}}]
+  - name: gw-only
+    match: [{gateways: [ns1/some-gateway], uri: {prefix: /gw}}]
+    route: [{destination: {host: static2.ns1.example.com}, headers: {request: {set: {x-tenant: gw}}}}]
+  - route: [{destination: {host: static2.ns1.example.com}}]
+---
+# routes selected by the caller's labels (route "8080"), for contrast
+apiVersion: networking.istio.io/v1
+kind: VirtualService
+metadata: {name: vs-labels, namespace: ns1}
+spec:
+  hosts: [dns.ns1.example.com]
+  http:
+  - name: from-b
+    match: [{sourceLabels: {app: b}}]
+    route: [{destination: {host: dns.ns1.example.com}, headers: {request: {set: {x-src: b}}}}]
+  - route: [{destination: {host: dns.ns1.example.com}}]
+---
 apiVersion: networking.istio.io/v1
 kind: VirtualService
 metadata: {name: vs-ns2, namespace: ns2}
@@ -201,7 +232,7 @@ spec:
 `
 
 type proxyAttrs struct {
-	Namespace, Network, Cluster, Region, Node, Version string
+	Namespace, Network, Cluster, Region, Node, Version, DNSDomain string
 	Labels                                           map[string]string
 	Router, DNSCapture, NoHBONE                      bool
 }
@@ -211,6 +242,7 @@ func (a proxyAttrs) build(s *xds.FakeDiscoveryServer) *model.Proxy {
 		Type:            model.SidecarProxy,
 		ConfigNamespace: a.Namespace,
 		ID:              "app." + a.Namespace,
+		DNSDomain:       a.DNSDomain, // shared across namespaces (VM-style): a per-namespace domain would mask the namespace in the RDS key
 		IPAddresses:     []string{"10.9.9.9"},
 		Labels:          a.Labels,
 		Locality:        &core.Locality{Region: a.Region, Zone: "zone1", SubZone: "sub1"},
@@ -225,7 +257,7 @@ func (a proxyAttrs) build(s *xds.FakeDiscoveryServer) *model.Proxy {
 	return s.SetupProxy(p)
 }
 
-var baseAttrs = proxyAttrs{Namespace: "ns1", Network: "net1", Cluster: "Kubernetes", Region: "region1", Node: "node1", Version: "1.24.0",
+var baseAttrs = proxyAttrs{Namespace: "ns1", Network: "net1", Cluster: "Kubernetes", Region: "region1", Node: "node1", Version: "1.24.0", DNSDomain: "mesh.internal",
 	Labels: map[string]string{"app": "a", "topology.istio.io/network": "net1"}}
 
 func variants() map[string]proxyAttrs {
@@ -241,6 +273,9 @@ func variants() map[string]proxyAttrs {
 	}
 	v("same", func(a *proxyAttrs) {})
 	v("namespace", func(a *proxyAttrs) { a.Namespace = "ns2" })
+	// ns3 holds no config of its own: same imported services / virtual services / destination rules as ns1
+	v("namespace-peer", func(a *proxyAttrs) { a.Namespace = "ns3" })
+	v("dns-domain", func(a *proxyAttrs) { a.DNSDomain = "ns1.svc.cluster.local" })
 	v("labels", func(a *proxyAttrs) { a.Labels["app"] = "b" })
 	v("network", func(a *proxyAttrs) { a.Network = "net2"; a.Labels["topology.istio.io/network"] = "net2" })
 	v("cluster", func(a *proxyAttrs) { a.Cluster = "cluster2" })
